@@ -186,6 +186,9 @@ func (r *fileRenderer) decl(d int, ind string) {
 		if r.f.X && dl.Alias {
 			r.w.put(in2 + "option allow_alias = true;\n")
 		}
+		if r.f.X {
+			r.rangesX(dl, in2) // reserved ranges (inclusive) and names of the enum
+		}
 		r.optionStmts(d, dl.Opts, in2)
 		n := 0
 		for _, c := range r.kids[d] {
